@@ -36,8 +36,18 @@ func Generate(r *rng.R, hostile bool) *Input {
 
 // GenerateArgs draws a request of c01's argument family: fields with arguments (defaults, required,
 // lists), typed variables, raw variable values of the right and of the wrong kind.
+// documents added to c01's argument family here: an argument given as a variable that has no
+// value (and no default of its own) takes the ARGUMENT's default, or is left out when there is none
+var extraArgDocs = []argDoc{
+	{`query($s: String, $n: Int) {a: d(s: $s) b: o(id: "a") {h(k: $n)} c: f(k: $n) plain}`,
+		[]map[string]interface{}{{}, {"s": "y"}, {"n": 2}, {"s": nil, "n": nil}, {"n": 1.0, "s": "x"}}},
+	{`query($b: Boolean, $s: String) {a: d(b: $b) c: d(s: $s, b: $b) e: d(s: $s)}`,
+		[]map[string]interface{}{{}, {"b": true}, {"b": nil}, {"s": "y", "b": true}, {"s": nil}}},
+}
+
 func GenerateArgs(r *rng.R) *Input {
 	s, docs, tbl := argFamilyParts()
+	docs = append(docs, extraArgDocs...)
 	d := docs[r.Intn(len(docs))]
 	vars := d.vars[r.Intn(len(d.vars))]
 	return &Input{Schema: s, Text: d.text, Vars: vars, table: tbl}
